@@ -103,7 +103,7 @@ class contentsSet(GenericEquality):
         if fs.isfs_obj(obj):
             self._dict.pop(obj.location, None)
         else:
-            self._dict.pop(obj, None)
+            self._dict.pop(normpath(obj), None)
 
     def __getitem__(self, obj):
         if fs.isfs_obj(obj):
@@ -135,6 +135,14 @@ class contentsSet(GenericEquality):
                 yield x
 
     @staticmethod
+    def _locations(other):
+        """Normalized locations named by a set, or by an iterable of entries and/or paths."""
+        if isinstance(other, contentsSet):
+            return other._dict
+        f = fs.isfs_obj
+        return {x.location if f(x) else normpath(x) for x in other}
+
+    @staticmethod
     def _ensure_fsbase(iterable):
         f = fs.isfs_obj
         for x in iterable:
@@ -143,8 +151,7 @@ class contentsSet(GenericEquality):
             yield x
 
     def difference(self, other):
-        if not hasattr(other, "__contains__"):
-            other = set(self._convert_loc(other))
+        other = self._locations(other)
         return contentsSet(
             (x for x in self if x.location not in other), mutable=self.mutable
         )
@@ -159,31 +166,29 @@ class contentsSet(GenericEquality):
                 rem(x)
 
     def intersection(self, other):
-        return contentsSet((x for x in other if x in self), mutable=self.mutable)
+        f = fs.isfs_obj
+        return contentsSet(
+            (x if f(x) else self[x] for x in other if x in self), mutable=self.mutable
+        )
 
     def intersection_update(self, other):
         if not self.mutable:
             raise TypeError(f"immutable type {self!r}")
-        if not hasattr(other, "__contains__"):
-            other = set(self._convert_loc(other))
+        other = self._locations(other)
 
         l = [x for x in self if x.location not in other]
         for x in l:
             self.remove(x)
 
     def issubset(self, other):
-        if not hasattr(other, "__contains__"):
-            other = set(self._convert_loc(other))
+        other = self._locations(other)
         return all(x in other for x in self._dict)
 
     def issuperset(self, other):
-        if not hasattr(other, "__contains__"):
-            other = set(self._convert_loc(other))
         return all(x in self for x in other)
 
     def isdisjoint(self, other):
-        if not hasattr(other, "__contains__"):
-            other = set(self._convert_loc(other))
+        other = self._locations(other)
         return not any(x in other for x in self._dict)
 
     def union(self, other):
